@@ -9,10 +9,10 @@
 //! ASSUME: alloc/dealloc logging stubs. Interpretation (DESIGN C11): ThinArc's opaque pointer
 //!   (ptr/heap_ptr/as_ptr/into_raw) is the *block* address, identical across the four accessors
 //!   and across clones, and round-trips through from_raw.
-//! OUTSIDE: shapes not listed; feature combinations without arc-swap/unsize; the *address* reported by
-//!   as_ptr/Deref of an `Arc<dyn Trait>` whose concrete payload is aligned above 8 (Kani models the
-//!   offset of a dyn tail field from the static alignment; block identity, contents and count of
-//!   those handles are still checked).
+//! OUTSIDE: shapes not listed; feature combinations without arc-swap/unsize; `Arc<dyn Trait>` handles
+//!   whose concrete payload is aligned above 8 (Kani models the offset of a dyn tail field from the
+//!   static alignment, so every projection to such a payload - as_ptr, Deref, drop_in_place of the
+//!   data field - is mis-placed in the model; no such handle is made, dyn over shapes aligned <= 8 is).
 use crate::ghost::*;
 use crate::kinds::*;
 use core::mem::{forget, size_of, transmute_copy, ManuallyDrop};
@@ -91,19 +91,22 @@ fn addr_facts<T: Copy + Pl + Tr + 'static>(v: T) {
     let b = unsafe { Arc::from_raw(p) };
     assert!(b.heap_ptr() as usize == blk.addr && Arc::count(&b) == 2 && b.sig() == v.sig());
     // cast to a trait-object pointer, then from_raw
-    let p = Arc::into_raw(b) as *const dyn Tr;
-    let dy: Arc<dyn Tr> = unsafe { Arc::from_raw(p) };
-    assert!(dy.heap_ptr() as usize == blk.addr, "from_raw after a dyn cast recovers a different allocation");
-    if core::mem::align_of::<T>() <= 8 {
-        // Kani 0.68 computes the offset of an unsized `dyn` tail field from the static alignment
-        // of the struct head, not from the vtable, so for payloads aligned above the count word
-        // this address is mis-modelled (native run agrees with triomphe); see OUTSIDE.
+    // Kani 0.68 computes the offset of an unsized `dyn` tail field from the static alignment of the struct
+    // head, not from the vtable, so every projection to the payload of an `ArcInner<dyn Tr>` whose concrete
+    // payload is aligned above the count word is mis-modelled (natively correct): no dyn handle is made for
+    // those shapes; see OUTSIDE.
+    let dy: Option<Arc<dyn Tr>> = if core::mem::align_of::<T>() <= 8 {
+        let p = Arc::into_raw(b) as *const dyn Tr;
+        let dy: Arc<dyn Tr> = unsafe { Arc::from_raw(p) };
+        assert!(dy.heap_ptr() as usize == blk.addr, "from_raw after a dyn cast recovers a different allocation");
         assert!(Arc::as_ptr(&dy) as *const u8 == d as *const u8, "as_ptr of the dyn handle is not the value's address");
-    }
-    assert!(Arc::count(&dy) == 2);
-    if core::mem::align_of::<T>() <= 8 {
+        assert!(Arc::count(&dy) == 2);
         assert!(dy.v() == v.v());
-    }
+        Some(dy)
+    } else {
+        drop(b);
+        None
+    };
     // arc-swap glue
     let sp = <Arc<T> as arc_swap::RefCnt>::as_ptr(&a);
     assert!(sp as *const T == d);
